@@ -9,6 +9,7 @@ instance parser, foreign subtrees, allocation limit) and every listener state / 
 import Proofs.Lemmas.ListenerHttp
 import Proofs.Lemmas.ListenerXml
 import Proofs.Lemmas.ListenerConc
+import Proofs.Lemmas.ListenerPar
 import Proofs.Lemmas.XmlText
 
 namespace C17
@@ -528,6 +529,22 @@ theorem C17_serialised_indication_accepted (instP : Xml → Except PyExc Unit) (
     omega
   · rw [List.take_length, hb]
     exact hp
+
+/-- the concrete request parser satisfies the one assumption of `C17_response_body_is_xml`: every attribute value
+    `XmlParse.par` returns consists of XML characters (proved through `recvAttr`, `parseAttrs`, `contentLoop`,
+    `parseElem`) -/
+theorem C17_concrete_parser_xml_chars (instP : Xml → Except PyExc Unit) : XmlCharsEnv (parEnv instP) :=
+  parEnv_xmlChars instP
+
+/-- **body_is_valid_export_response, without assumptions** for the concrete parser: whatever octets are posted,
+    whatever the headers and the listener state, whenever the answer is 200 its body is accepted by the proved XML
+    parser and is the EXPMETHODRESPONSE tree echoing the request's message id and method name. -/
+theorem C17_response_body_is_xml_concrete (instP : Xml → Except PyExc Unit) (s s' : LState) (r : Req) (rsp : Response)
+    (h : handle Cfg.fixed (parEnv instP) s r = some (.ok (s', rsp))) (hs : rsp.status = 200) :
+    ∃ msgid m err, rsp = exportRsp msgid m err ∧
+      Pywbem.Model.XmlParse.par rsp.body = some (rspTreeRead msgid m err) :=
+  let ⟨msgid, m, err, h1, h2, _⟩ := C17_response_body_is_xml _ (parEnv_xmlChars instP) s s' r rsp h hs
+  ⟨msgid, m, err, h1, h2⟩
 
 /-! ## the request classes the property names -/
 
